@@ -111,7 +111,7 @@ type dsWorld struct {
 	semStep        map[int64]int64
 	asyncFor       map[int64]string  // async goroutine -> publisher
 	lockEv         []lockEvent       // sync.lock releases (a sync enters the sync proper)
-	latestAtTook   map[int64]cid.Cid // async goroutine -> latest-sync when it took its announcement
+	latestAtTook   map[int64]cid.Cid // async goroutine -> latest-sync when it got the publisher's lock (it reads its stop point then)
 	tookStep       map[int64]int64
 	asyncStarted   map[int64]int64 // async goroutine that entered the sync proper -> step
 	notifiedBy     map[int64]int   // notifications sent per goroutine
@@ -250,7 +250,7 @@ func runDsync(r *simkit.Run, c Cfg, mode dsMode) {
 		}
 	}
 	// these two carry oracle bookkeeping and are always on
-	sites["event.send"], sites["event.senderr"], sites["async.sem"], sites["async.took"] = true, true, true, true
+	sites["event.send"], sites["event.senderr"], sites["async.sem"], sites["async.took"], sites["async.work"] = true, true, true, true, true
 	sites["listener.add"], sites["listener.cancel"] = true, true
 	if mode.closing {
 		// needed to keep shutdown races out of runtime select coins (see
@@ -689,9 +689,23 @@ func runDsync(r *simkit.Run, c Cfg, mode dsMode) {
 				d.holder[p.Who] = p.GID
 				d.lockEv = append(d.lockEv, lockEvent{p.GID, r.Step()})
 				if _, ok := d.asyncFor[p.GID]; ok {
-					// an announce-triggered sync that found work to do
-					d.asyncStarted[p.GID] = r.Step()
+					// an announce-triggered sync has the publisher's lock:
+					// it reads its stop point now. Remember what
+					// latest-sync is at this moment.
+					for _, pub := range d.pubs {
+						if pub.Name == p.Who {
+							d.latestAtTook[p.GID] = d.sub.Latest(pub)
+							d.tookStep[p.GID] = r.Step()
+						}
+					}
 				}
+				r.Release(p, nil)
+			}}
+		case "async.work":
+			// an announce-triggered sync that found work to do
+			return &simkit.Action{Name: "release async.work|" + p.Who, Weight: 2, Do: func() {
+				d.asyncFor[p.GID] = p.Who
+				d.asyncStarted[p.GID] = r.Step()
 				r.Release(p, nil)
 			}}
 		case "async.entry", "async.lock":
@@ -702,14 +716,6 @@ func runDsync(r *simkit.Run, c Cfg, mode dsMode) {
 		case "async.took":
 			return &simkit.Action{Name: "release async.took|" + p.Who, Weight: 2, Do: func() {
 				d.asyncFor[p.GID] = p.Who
-				// the sync reads its stop point right after this point:
-				// remember what latest-sync is now
-				for _, pub := range d.pubs {
-					if pub.Name == p.Who {
-						d.latestAtTook[p.GID] = d.sub.Latest(pub)
-						d.tookStep[p.GID] = r.Step()
-					}
-				}
 				r.Release(p, nil)
 			}}
 		case "async.sem":
@@ -1074,41 +1080,15 @@ func (d *dsWorld) d8Applies(order []*syncRec, pub *PubNode) bool {
 	if !mixedSyncs(order, pub.Name) {
 		return false
 	}
-	lockOf := func(s *syncRec) int64 {
-		for _, e := range d.lockEv {
-			if e.gid == s.key.gid && e.step >= s.start && e.step <= s.end {
-				return e.step
-			}
-		}
-		return -1
-	}
-	var ss []*syncRec
 	for _, s := range order {
-		if s.pub == pub.Name {
-			ss = append(ss, s)
-		}
-	}
-	for _, s := range ss {
-		lock := lockOf(s)
-		if lock < 0 {
+		if s.pub != pub.Name || s.explicit {
 			continue
 		}
-		read := s.start
-		if !s.explicit {
-			if t, ok := d.tookStep[s.key.gid]; ok {
-				read = t
-			}
-			if at, ok := d.latestAtTook[s.key.gid]; ok && at.Defined() && len(s.calls) > 0 && pub.AdIndex(s.calls[0].Cid) < pub.AdIndex(at) {
-				return true // (b)
-			}
-		}
-		for _, y := range ss {
-			if y == s {
-				continue
-			}
-			if yl := lockOf(y); yl >= 0 && yl < lock && y.end >= read {
-				return true // (a)
-			}
+		// an announce-triggered sync that, when it got the publisher's lock,
+		// held an announcement whose head was older than latest-sync (an
+		// explicit sync had overtaken the announcement)
+		if at, ok := d.latestAtTook[s.key.gid]; ok && at.Defined() && len(s.calls) > 0 && pub.AdIndex(s.calls[0].Cid) < pub.AdIndex(at) {
+			return true
 		}
 	}
 	return false
@@ -1182,7 +1162,7 @@ func (d *dsWorld) finalChecks() {
 			continue
 		}
 		if at, ok := d.latestAtTook[sy.key.gid]; ok && at.Defined() && sy.calls[0].Cid == at && sy.calls[0].Step > d.tookStep[sy.key.gid] {
-			r.Violate(o+".redundant", "an announce-triggered sync of %s walked the chain from %s although that advertisement was already the latest synced when the sync took its announcement: %d advertisements reported again", sy.pub, w.CidName(at), len(sy.calls))
+			r.Violate(o+".redundant", "an announce-triggered sync of %s walked the chain from %s although that advertisement was already the latest synced when the sync got the publisher's lock: %d advertisements reported again", sy.pub, w.CidName(at), len(sy.calls))
 			break
 		}
 	}
@@ -1193,7 +1173,7 @@ func (d *dsWorld) finalChecks() {
 		hs := perPub[pub.Name]
 		stale := ""
 		if d.d8Applies(order, pub) {
-			stale = " [mixed explicit/announce syncs of this publisher: the stop point is read before the per-publisher lock is free, and an announced head already overtaken by an explicit sync is walked again]"
+			stale = " [overtaken announcement: when an announce-triggered sync of this publisher got the publisher's lock, the head in its announcement was older than latest-sync - an explicit sync had passed it - and the chain is walked again from that head]"
 			r.Probe("known-finding-precondition-met")
 		} else if mixedSyncs(order, pub.Name) {
 			r.Probe("explicit-and-announce-syncs-mixed-without-known-finding-precondition")
